@@ -264,6 +264,19 @@ def run(repo, rep):
     from ..symval import TRUNC_EVENTS
     del TRUNC_EVENTS[:]
     _run(repo, rep)
+    # clause 2 quantifies over "every shipped parameter set" and its negation: the reverse-direction constants of the catalogue ARE the
+    # negations users transform back with - each must carry exactly the negated parameters and rates of its forward partner
+    from . import c11
+    from ..symval import Evaluator as _Ev
+    ev_c = _Ev(repo)
+    ev_c.fold_const_types = True
+    ev_c.dates_are_typed = True
+    del c11.UNFOLDED[:]
+    cat = c11.fold_catalogue(repo, ev_c)
+    for name_, st_ in c11.UNFOLDED:
+        rep.undecided('R-NEG', 'R-NEG::geodepy/constants.py::%s::unfolded' % name_, 'geodepy/constants.py:%d' % st_.lineno, 'the constant %s does not fold to a Transformation object' % name_)
+    c11.reverse_rules(repo, rep, cat)
+    rep.floor('R-NEG', 55, 'forward/reverse pairs of the catalogue')
     common.truncation_rule(repo, rep, 'R-TRUNC::geodepy/transform.py::epoch-handling', 'the ATRF wrappers, conform14 and the epoch propagation at the concrete epochs')
     # in-place array updates met while evaluating the functions above (element type follows the caller's numbers)
     common.dtype_rule(repo, rep, [('geodepy.transform', 'conform7'), ('geodepy.transform', 'conform14')])
